@@ -20,6 +20,26 @@ CLAIMED = {
             "verif-tag accessors VerifKeys/VerifRoutes and the cache hook which snapshots under the cache lock", "6 C14"),
 }
 
+CLAIMED["C01"] = (
+    "TLA+ specs RuxPattern (set-valued pattern semantics) + RuxIndex (three-tier index as a state machine, operational "
+    "Lookup vs declarative Select) model-checked with TLC; every table x every path replayed on Router.Add/Match; random big "
+    "tables recorded from the real router and validated by TLC (TraceIndex)",
+    "TLC enumerates every table of <=2 routes over a 49-pattern pool (<=3 over 25 patterns in the thorough tier) and checks "
+    "Lookup = Select for every path of <=5/6 characters; each table is rebuilt on the real router (plain and caching) and every "
+    "(method, path) cell is compared with the model; traces of random tables (<=10 routes, nine methods, fresh patterns, paths "
+    "<=16) are validated event by event against the Register action and the declarative selection.",
+    "small scope for exhaustion (tables<=3, paths<=6 over a 5-letter alphabet); closed regex-class table; larger tables only via "
+    "recorded traces; trusted: TLC, Go regexp agrees with the class table on the alphabet", "6 C01")
+CLAIMED["C02"] = (
+    "same specification as C01: the match matrix Decomps(pattern, path) (ALL admissible bindings) is computed by TLC, its laws "
+    "(names, substitution back, class membership) are TLC assertions, and the real Match/params (cache off, capacity 1, capacity "
+    "1000, miss and hit) are compared cell by cell; recorded traces validated by TLC",
+    "For 31 parameter-shaped patterns x every path of <=5/6 characters over two alphabets TLC computes the set of admissible "
+    "decompositions and asserts DecompSound; the real router's params must be a member (equal where the set is a singleton), "
+    "with caching off and on (miss, hit, after eviction).",
+    "set-valued oracle (greedy/lazy regex choices are not constrained); Params treated read-only by handlers; trusted: TLC, class "
+    "table vs Go regexp", "6 C02")
+
 PENDING = {}
 
 
